@@ -443,7 +443,13 @@ def c14(ctx):
     beh = ctx.generate("Catalog", "MC_Catalog_gen.cfg", num=160 if q else 2500, depth=40)
     if not ctx.gv("tlc-schedules", "Trace_Catalog", ["catalog", "--seed", str(seed())], inputs=beh):
         return
-    ctx.gv("lagging-replicas", "Trace_Catalog", ["cataloglag", "--seed", str(seed()), "--n", str(4 if q else 60)])
+    if not ctx.gv("lagging-replicas", "Trace_Catalog", ["cataloglag", "--seed", str(seed()), "--n", str(4 if q else 60)]):
+        return
+    # a node that fell behind past a log compaction receives the catalogue as a SNAPSHOT of the metadata state machine:
+    # installing it replaces whatever the node held (a table deleted meanwhile must not survive) - random metadata logs
+    # with snapshot transfers into non-empty replicas on real kv.LFSM instances
+    n, ops = (150, 25) if q else (3000, 40)
+    ctx.gv("metadata-snapshot-installs", "Trace_MetaKV", ["metakv", "--mode", "lfsm", "--seed", str(seed() + 21), "--n", str(n), "--ops", str(ops)])
 
 
 @check("C19")
@@ -574,7 +580,12 @@ def c10(ctx):
     q = ctx.quick
     ctx.design("Group", "MC_Group_quick.cfg" if q else "MC_Group_thorough.cfg")
     n, ops = (8, 30) if q else (300, 60)
-    ctx.gv("three-node-histories", "Trace_Group", ["group", "--seed", str(seed()), "--n", str(n), "--ops", str(ops)], racy=True)
+    if not ctx.gv("three-node-histories", "Trace_Group", ["group", "--seed", str(seed()), "--n", str(n), "--ops", str(ops)], racy=True):
+        return
+    # "a state at ONE log position" at the state machine that serves the reads: a back-to-back writer (values alternating
+    # around 100, one 21 MiB transaction) against readers of every kind - what the engine-level clients are too slow to hit
+    n, ops = (4, 800) if q else (40, 3000)
+    ctx.gv("reads-at-one-position", "Trace_Table", ["table", "--mode", "conc", "--seed", str(seed() + 9), "--n", str(n), "--ops", str(ops)], racy=True)
 
 
 @check("C05")
@@ -594,7 +605,14 @@ def c05(ctx):
     log("(D) tlapm ReplicationU: all %d obligations proved in %.1fs" % (n, wall))
     ctx.design("Replication", "MC_Replication_quick.cfg" if q else "MC_Replication_thorough.cfg")
     n, ops = (10, 60) if q else (150, 120)
-    ctx.gv("leader-follower-histories", "Trace_Repl", ["repl", "--seed", str(seed()), "--n", str(n), "--ops", str(ops)], racy=True)
+    if not ctx.gv("leader-follower-histories", "Trace_Repl", ["repl", "--seed", str(seed()), "--n", str(n), "--ops", str(ops)], racy=True):
+        return
+    # "exactly once" when copies of a sequence reach the follower's state machine in ONE apply batch (two proposals
+    # committed in one Raft step - what the one-node follower above does not produce): TLC logs with worker-built
+    # sequences, cut into batches in every way, on real FSMs
+    logs = ctx.design("MC_Converge", "MC_Converge_quick.cfg", sample=60 if q else 20)
+    logs = [x for x in logs if '"sli"' in x]
+    ctx.gv("sequence-copies-in-one-batch", "Trace_Table", ["table", "--mode", "convlog", "--seed", str(seed())], inputs=logs)
 
 
 @check("C16")
